@@ -110,6 +110,22 @@ def systematic_mutants(data, dataoff, limit=160):
     return out
 
 
+def hostile_mutants(data, dataoff, limit=320):
+    """every 2 byte aligned field of the header region set to 0xFFFF, 0x7FFF / 0xFF7F, 0x8000 / 0x0080, 0x0A00 / 0x000A (counts just above
+    typical table limits) and 0; every 4 byte aligned field set to 0xFFFFFFFF, 0x7FFFFFFF (both orders), 0x80000000 (both orders)"""
+    hdr = max(16, min(dataoff if dataoff > 0 else 64, len(data), limit))
+    out = []
+    for off in range(0, hdr - 1, 2):
+        for pat in (b"\xff\xff", b"\x7f\xff", b"\xff\x7f", b"\x80\x00", b"\x00\x80", b"\x0a\x00", b"\x00\x0a", b"\x00\x00"):
+            if data[off:off + 2] != pat:
+                out.append(data[:off] + pat + data[off + 2:])
+    for off in range(0, hdr - 3, 4):
+        for pat in (b"\xff\xff\xff\xff", b"\x7f\xff\xff\xff", b"\xff\xff\xff\x7f", b"\x80\x00\x00\x00", b"\x00\x00\x00\x80", b"\x00\x00\x00\x00"):
+            if data[off:off + 4] != pat:
+                out.append(data[:off] + pat + data[off + 4:])
+    return out
+
+
 CALLS = ["read 0 s f 7", "read 0 i i 12", "read 0 f f 3", "read 0 d i 24", "read 0 s i 5000", "read 0 f f 100000", "seek 0 0 0", "seek 0 3 0", "seek 0 -1 2", "seek 0 2 1", "seek 0 0 2", "seek 0 5 16",
          "seek 0 1000000 0", "seek 0 0 17", "getstr 0 1", "getstr 0 4", "info 0", "calc 0 CALC_SIGNAL_MAX", "calc 0 CALC_NORM_MAX_ALL_CHANNELS", "calc 0 GET_SIGNAL_MAX", "calc 0 GET_MAX_ALL_CHANNELS",
          "chit 0 0 null", "chget 0 0 -1", "chnext 0 0", "chget 0 0 2", "chit 0 0 41424344", "chget 0 0 -1", "errq 0", "cmd 0 GET_NORM_FLOAT 0", "read 0 r i 64"]
@@ -120,6 +136,8 @@ def scenarios(S, seeds, rng, per_seed, routes=("vio",), ncalls=12, systematic=Fa
         ms = mutants(data, do, rng, per_seed)
         if systematic:
             ms = ms + systematic_mutants(data, do)
+        if systematic == 2:
+            ms = ms + hostile_mutants(data, do)
         for m in ms:
             rt = rng.choice(routes)
             S.scn(fmt="0x%x" % fmt, ch=ch, kind="c03", relax=1, route=rt, nodata=1)
